@@ -1,6 +1,7 @@
 mod alloc;
 mod assets;
 mod corrupt;
+mod defs;
 mod exec;
 mod harness;
 mod jumbf;
